@@ -307,3 +307,245 @@ theorem sound_mem {buf : Bytes} {off lo : Nat} {l : List (Nat × Nat)} (h : Soun
 
 end Cfg
 end FeVerif
+
+namespace FeVerif
+namespace Cfg
+variable {c : Cfg}
+
+theorem runFile_ge (buf : Bytes) (off : Nat) : ∀ e ∈ c.runFile buf off, off ≤ e.1 ∧ e.1 + e.2 ≤ off + buf.length := by
+  induction hlen : buf.length using Nat.strongRecOn generalizing buf off with
+  | ind k ih =>
+    intro e he
+    cases hs : c.stepFile buf with
+    | stop => rw [runFile_stop hs] at he; cases he
+    | drop =>
+      have hpos := stepFile_drop_pos hs
+      rw [runFile_drop hs] at he
+      have := ih (buf.drop 1).length (by simp; omega) (buf.drop 1) (off + 1) rfl e he
+      simp only [List.length_drop] at this
+      omega
+    | emit n =>
+      have hpos := stepFile_emit_pos hs
+      rw [runFile_emit hs] at he
+      rcases List.mem_cons.1 he with rfl | h
+      · simp only; omega
+      · have := ih (buf.drop n).length (by simp; omega) (buf.drop n) (off + n) rfl e h
+        simp only [List.length_drop] at this
+        omega
+
+/-- An accepting verdict depends only on the message's own bytes. -/
+theorem stepFile_emit_take' (buf : Bytes) (k n : Nat) :
+    c.stepFile (buf.take k) = .emit n ↔ c.stepFile buf = .emit n ∧ n ≤ k := by
+  rw [stepFile_emit_iff, stepFile_emit_iff]
+  constructor
+  · intro h
+    have hpos := step_emit_pos h
+    have : c.step (buf.take k ++ buf.drop k) = c.step (buf.take k) :=
+      step_append_of_ne_stop _ (by rw [h]; simp)
+    rw [List.take_append_drop] at this
+    refine ⟨by rw [this, h], ?_⟩
+    have := hpos.2; simp at this; omega
+  · rintro ⟨h, hk⟩
+    rw [step_emit_iff] at h ⊢
+    obtain ⟨h1, h2, h3, h4, h5⟩ := h
+    have hh : c.hdrLen ≤ n := by rw [h3]; unfold Cfg.msgLen; exact Nat.le_add_right _ _
+    have e1 : (buf.take k).take c.hdrLen = buf.take c.hdrLen := by
+      rw [List.take_take, Nat.min_eq_left (by omega)]
+    have e2 : (buf.take k).take n = buf.take n := by
+      rw [List.take_take, Nat.min_eq_left hk]
+    refine ⟨by simp; omega, by rw [e1]; exact h2, ?_, by simp; omega, by rw [e2]; exact h5⟩
+    rw [h3]; unfold Cfg.msgLen; rw [e1]
+
+/-- **Scan of a file cut at the end of an accepted message**: exactly the accepted messages up to
+and including that one. -/
+theorem runFile_take (buf : Bytes) (off m o n : Nat) (hm : m ≤ buf.length)
+    (hmem : (o, n) ∈ c.runFile buf off) (hend : o + n = off + m) :
+    ∃ l1 l2, c.runFile buf off = l1 ++ (o, n) :: l2 ∧ c.runFile (buf.take m) off = l1 ++ [(o, n)] := by
+  induction hlen : buf.length using Nat.strongRecOn generalizing buf off m with
+  | ind k ih =>
+    cases hs : c.stepFile buf with
+    | stop => rw [runFile_stop hs] at hmem; cases hmem
+    | drop =>
+      have hpos := stepFile_drop_pos hs
+      rw [runFile_drop hs] at hmem ⊢
+      have hge := runFile_ge (c := c) _ _ _ hmem
+      simp only at hge
+      -- the cut file still has a full header's worth here, and the verdict there is `drop` too
+      have hn : c.hdrLen ≤ n := by
+        have hh : ∀ (b : Bytes) (f : Nat), (o, n) ∈ c.runFile b f → c.hdrLen ≤ n := by
+          intro b f
+          induction hl : b.length using Nat.strongRecOn generalizing b f with
+          | ind k2 ih2 =>
+            intro hin
+            cases hs2 : c.stepFile b with
+            | stop => rw [runFile_stop hs2] at hin; cases hin
+            | drop =>
+              have := stepFile_drop_pos hs2
+              rw [runFile_drop hs2] at hin
+              exact ih2 (b.drop 1).length (by simp; omega) _ _ rfl hin
+            | emit n2 =>
+              have hp2 := stepFile_emit_pos hs2
+              rw [runFile_emit hs2] at hin
+              rcases List.mem_cons.1 hin with e | hin'
+              · injection e with e1 e2
+                subst e2
+                have := (step_emit_iff.1 (stepFile_emit_iff.1 hs2)).2.2.1
+                rw [this]; unfold Cfg.msgLen; exact Nat.le_add_right _ _
+              · exact ih2 (b.drop n2).length (by simp; omega) _ _ rfl hin'
+        exact hh _ _ hmem
+      have hdrop : c.stepFile (buf.take m) = .drop := by
+        cases hs' : c.stepFile (buf.take m) with
+        | drop => rfl
+        | emit k2 =>
+          have := ((stepFile_emit_take' buf m k2).1 hs').1
+          rw [hs] at this; cases this
+        | stop =>
+          exfalso
+          unfold Cfg.stepFile at hs'
+          have hl : ¬ (buf.take m).length < c.hdrLen := by simp; omega
+          rw [if_neg hl] at hs'
+          split at hs'; · cases hs'
+          split at hs'; · cases hs'
+          split at hs' <;> cases hs'
+      rw [runFile_drop hdrop]
+      have e : (buf.take m).drop 1 = (buf.drop 1).take (m - 1) := by rw [List.drop_take]
+      rw [e]
+      exact ih (buf.drop 1).length (by simp; omega) (buf.drop 1) (off + 1) (m - 1) (by simp; omega) hmem
+        (by omega) rfl
+    | emit k2 =>
+      have hpos := stepFile_emit_pos hs
+      rw [runFile_emit hs] at hmem ⊢
+      rcases List.mem_cons.1 hmem with e | hin
+      · injection e with e1 e2
+        subst e1; subst e2
+        have hmn : m = n := by omega
+        subst hmn
+        refine ⟨[], c.runFile (buf.drop m) (o + m), rfl, ?_⟩
+        have : c.stepFile (buf.take m) = .emit m := (stepFile_emit_take' buf m m).2 ⟨hs, Nat.le_refl _⟩
+        rw [runFile_emit this]
+        have : (buf.take m).drop m = [] := by simp
+        rw [this, runFile_stop]
+        · rfl
+        · unfold Cfg.stepFile; rw [if_pos]; exact c.hdrLen_pos
+      · have hge := runFile_ge (c := c) _ _ _ hin
+        simp only at hge
+        have hk2m : k2 ≤ m := by omega
+        have : c.stepFile (buf.take m) = .emit k2 := (stepFile_emit_take' buf m k2).2 ⟨hs, hk2m⟩
+        rw [runFile_emit this]
+        have e : (buf.take m).drop k2 = (buf.drop k2).take (m - k2) := by rw [List.drop_take]
+        rw [e]
+        obtain ⟨l1, l2, h1, h2⟩ := ih (buf.drop k2).length (by simp; omega) (buf.drop k2) (off + k2) (m - k2)
+          (by simp; omega) hin (by omega) rfl
+        exact ⟨(off, k2) :: l1, l2, by rw [h1]; rfl, by rw [h2]; rfl⟩
+
+end Cfg
+end FeVerif
+
+namespace FeVerif
+namespace Cfg
+variable {c : Cfg}
+
+/-- Every message the file scan lists is accepted at its offset. -/
+theorem runFile_mem_valid (buf : Bytes) (off : Nat) :
+    ∀ e ∈ c.runFile buf off, c.stepFile (buf.drop (e.1 - off)) = .emit e.2 := by
+  induction hlen : buf.length using Nat.strongRecOn generalizing buf off with
+  | ind k ih =>
+    intro e he
+    cases hs : c.stepFile buf with
+    | stop => rw [runFile_stop hs] at he; cases he
+    | drop =>
+      have hpos := stepFile_drop_pos hs
+      rw [runFile_drop hs] at he
+      have hge := (runFile_ge (c := c) _ _ e he).1
+      have := ih (buf.drop 1).length (by simp; omega) (buf.drop 1) (off + 1) rfl e he
+      rw [List.drop_drop] at this
+      rw [show e.1 - off = 1 + (e.1 - (off + 1)) by omega]; exact this
+    | emit n =>
+      have hpos := stepFile_emit_pos hs
+      rw [runFile_emit hs] at he
+      rcases List.mem_cons.1 he with rfl | h
+      · simpa using hs
+      · have hge := (runFile_ge (c := c) _ _ e h).1
+        have := ih (buf.drop n).length (by simp; omega) (buf.drop n) (off + n) rfl e h
+        rw [List.drop_drop] at this
+        rw [show e.1 - off = n + (e.1 - (off + n)) by omega]; exact this
+
+/-- Index form of `runFile_take`: cutting the file at the end of the `j`-th accepted message leaves
+exactly the first `j + 1` accepted messages. -/
+theorem runFile_take_idx (buf : Bytes) (off m j : Nat) (hm : m ≤ buf.length)
+    (hj : j < (c.runFile buf off).length)
+    (hend : ((c.runFile buf off)[j]'hj).1 + ((c.runFile buf off)[j]'hj).2 = off + m) :
+    c.runFile (buf.take m) off = (c.runFile buf off).take (j + 1) := by
+  induction hlen : buf.length using Nat.strongRecOn generalizing buf off m j with
+  | ind k ih =>
+    cases hs : c.stepFile buf with
+    | stop => rw [runFile_stop hs] at hj; simp at hj
+    | drop =>
+      have hpos := stepFile_drop_pos hs
+      have hmem : (c.runFile buf off)[j]'hj ∈ c.runFile (buf.drop 1) (off + 1) := by
+        rw [← runFile_drop hs]; exact List.getElem_mem hj
+      have hge := runFile_ge (c := c) _ _ _ hmem
+      have hv := runFile_mem_valid (c := c) _ _ _ hmem
+      have hn : c.hdrLen ≤ ((c.runFile buf off)[j]'hj).2 := by
+        have := (step_emit_iff.1 (stepFile_emit_iff.1 hv)).2.2.1
+        rw [this]; unfold Cfg.msgLen; exact Nat.le_add_right _ _
+      have hdrop : c.stepFile (buf.take m) = .drop := by
+        cases hs' : c.stepFile (buf.take m) with
+        | drop => rfl
+        | emit k2 =>
+          have := ((stepFile_emit_take' buf m k2).1 hs').1
+          rw [hs] at this; cases this
+        | stop =>
+          exfalso
+          unfold Cfg.stepFile at hs'
+          have hl : ¬ (buf.take m).length < c.hdrLen := by simp; omega
+          rw [if_neg hl] at hs'
+          split at hs'; · cases hs'
+          split at hs'; · cases hs'
+          split at hs' <;> cases hs'
+      rw [runFile_drop hdrop]
+      have e : (buf.take m).drop 1 = (buf.drop 1).take (m - 1) := by rw [List.drop_take]
+      rw [e]
+      have hj' : j < (c.runFile (buf.drop 1) (off + 1)).length := by rw [← runFile_drop hs]; exact hj
+      have heq : (c.runFile (buf.drop 1) (off + 1))[j]'hj' = (c.runFile buf off)[j]'hj := by
+        congr 1; exact (runFile_drop hs).symm
+      have := ih (buf.drop 1).length (by simp; omega) (buf.drop 1) (off + 1) (m - 1) j (by simp; omega) hj'
+        (by rw [heq]; omega) rfl
+      rw [this, runFile_drop hs]
+    | emit k2 =>
+      have hpos := stepFile_emit_pos hs
+      have hL := runFile_emit (off := off) hs
+      cases j with
+      | zero =>
+        have h0 : (c.runFile buf off)[0]'hj = (off, k2) := by
+          simp only [hL, List.getElem_cons_zero]
+        rw [h0] at hend
+        simp only at hend
+        have hmn : m = k2 := by omega
+        subst hmn
+        have : c.stepFile (buf.take m) = .emit m := (stepFile_emit_take' buf m m).2 ⟨hs, Nat.le_refl _⟩
+        rw [runFile_emit this, hL]
+        have : (buf.take m).drop m = [] := by simp
+        rw [this, runFile_stop]
+        · simp
+        · unfold Cfg.stepFile; rw [if_pos]; exact c.hdrLen_pos
+      | succ j' =>
+        have hj' : j' < (c.runFile (buf.drop k2) (off + k2)).length := by
+          rw [hL] at hj; simpa using hj
+        have heq : (c.runFile buf off)[j' + 1]'hj = (c.runFile (buf.drop k2) (off + k2))[j']'hj' := by
+          simp only [hL, List.getElem_cons_succ]
+        have hmem : (c.runFile (buf.drop k2) (off + k2))[j']'hj' ∈ c.runFile (buf.drop k2) (off + k2) :=
+          List.getElem_mem hj'
+        have hge := runFile_ge (c := c) _ _ _ hmem
+        rw [heq] at hend
+        have hk2m : k2 ≤ m := by omega
+        have : c.stepFile (buf.take m) = .emit k2 := (stepFile_emit_take' buf m k2).2 ⟨hs, hk2m⟩
+        rw [runFile_emit this]
+        have e : (buf.take m).drop k2 = (buf.drop k2).take (m - k2) := by rw [List.drop_take]
+        rw [e]
+        have := ih (buf.drop k2).length (by simp; omega) (buf.drop k2) (off + k2) (m - k2) j' (by simp; omega) hj'
+          (by omega) rfl
+        rw [this, hL]; rfl
+
+end Cfg
+end FeVerif
